@@ -770,6 +770,24 @@ def _pytree_alphabet(name, seed):
     if name == "q":  # tuple argument (float, vector)
         ya, va = alphabet("y", seed), alphabet("v", seed)
         return ((ya[0], va[0]), (ya[1], va[1]))
+    # Python-scalar (weakly typed) inputs and narrow array dtypes: ordinary evaluation promotes
+    # `uint8 array * python int` to uint8; an interpreter that stages the scalar strongly gives int32
+    if name == "g":
+        return (2, 3) if seed % 2 == 0 else (3, 2)
+    if name == "h":
+        return (0.5, 1.5) if seed % 2 == 0 else (1.5, 0.5)
+    if name == "u8":
+        import jax.numpy as jnp
+
+        return (jnp.asarray([10, 100, 200, 250], dtype=jnp.uint8), jnp.asarray([1, 2, 3, 4], dtype=jnp.uint8))
+    if name == "f16":
+        import jax.numpy as jnp
+
+        return (jnp.asarray([0.5, 1.25, -2.0], dtype=jnp.float16), jnp.asarray([1.0, 3.0, 0.25], dtype=jnp.float16))
+    if name == "i8":
+        import jax.numpy as jnp
+
+        return (jnp.asarray(100, dtype=jnp.int8), jnp.asarray(-7, dtype=jnp.int8))
     return alphabet(name, seed)
 
 
@@ -799,7 +817,24 @@ def _pyfns():
     def nested_out(p, x):
         return [(x, {"z": p["a"] + x}), 3, (cV,)]
 
+    def weak_int_gain(u8, g):
+        return u8 * g, g
+
+    def weak_float_shift(f16, h):
+        return f16 + h, (f16 * h).sum()
+
+    def weak_scan_carry(i8, g):
+        c, ys = lax.scan(lambda c, _: (c + g, c * g), i8, None, length=3)
+        return c, ys
+
+    def weak_only(g, h):
+        return jnp.multiply(g, h) + 1, jnp.where(h > 1.0, g, 7)
+
     return {
+        "weak_int_gain": (weak_int_gain,),
+        "weak_float_shift": (weak_float_shift,),
+        "weak_scan_carry": (weak_scan_carry,),
+        "weak_only": (weak_only,),
         "dict_arg": (dict_arg,),
         "dict_passthrough": (dict_passthrough,),
         "tuple_arg": (tuple_arg,),
@@ -815,6 +850,10 @@ def pytree_functions() -> list[PyFn]:
         PyFn("tuple_arg", ("q", "b"), ("cond", "out_is_input", "out_is_const", "literal_operand", "out_tuple")),
         PyFn("tuple_scan", ("q",), ("scan", "multi_result", "out_is_input", "out_dict")),
         PyFn("nested_out", ("p", "x"), ("out_is_input", "out_is_literal", "out_is_const", "out_tuple")),
+        PyFn("weak_int_gain", ("u8", "g"), ("weak_scalar_input", "narrow_dtype", "out_is_input", "out_tuple")),
+        PyFn("weak_float_shift", ("f16", "h"), ("weak_scalar_input", "narrow_dtype", "out_tuple")),
+        PyFn("weak_scan_carry", ("i8", "g"), ("weak_scalar_input", "narrow_dtype", "scan", "multi_result", "out_tuple")),
+        PyFn("weak_only", ("g", "h"), ("weak_scalar_input", "out_tuple")),
     ]
 
 
